@@ -80,6 +80,8 @@ fn eval_val(v: &Val, env: &Env) -> Result<RV, String> {
             | RV::Tuple(items) => items.get(*position).cloned().ok_or("projection out of range")?,
             | other => return Err(format!("projection from non-product {:?}", other)),
         },
+        // types are erased: a package is its contents
+        | Val::Pack { body, .. } => eval_val(body, env)?,
     })
 }
 
@@ -124,6 +126,7 @@ fn bind(p: &Pat, v: &RV, env: Env) -> Result<Option<Env>, String> {
                 bind(p, payload, env)?
             }
         }
+        | (Pat::Unpack(_, p, _), _) => bind(p, v, env)?,
         | (Pat::Alias(ps), _) => {
             let mut env = env;
             for p in ps {
